@@ -11,7 +11,7 @@ RULE = ('Hypothesis draws cors_allowed_origins {None, *, string, list, predicate
         'cors_credentials x Host / scheme / X-Forwarded-Proto / X-Forwarded-Host (single values and '
         'comma lists) x Origin {absent, empty, same-origin, forwarded origin, a listed origin, '
         'near-misses of each allowed origin (prefix, suffix, case, port, scheme, trailing slash, '
-        'sub-domain), mixtures of the direct scheme / host with the forwarded host / scheme, foreign} x request kind {open, poll, post, OPTIONS, upgrade of a session, '
+        'sub-domain), the request\'s own origin under an explicit origin / list / predicate, mixtures of the direct scheme / host with the forwarded host / scheme, foreign} x request kind {open, poll, post, OPTIONS, upgrade of a session, '
         'WebSocket open} x server. Each case runs on a fresh world holding one live session with a '
         'queued tagged message. Oracle: reference allow-set from the statement (exact string '
         'match); not allowed => 400 / WebSocket never accepted, no event, no new session, queue '
@@ -111,7 +111,18 @@ def case_st(draw):
     choices = ['absent', 'empty', 'allowed', 'allowed', 'near', 'near', 'near', 'foreign']
     if cors == 'none' and ('xfp' in case or 'xfh' in case):
         choices += ['mixed', 'mixed', 'mixed']
+    if cors in ('string', 'list', 'callable'):
+        choices += ['own', 'own']
     choice = draw(st.sampled_from(choices))
+    if choice == 'own':
+        # the request's own origin (direct or as forwarded): allowed by default, but with an
+        # explicit origin, list or predicate only that decides
+        proto = (case.get('xfp') or case['scheme']).split(',')[0].strip()
+        fhost = (case.get('xfh') or case['host']).split(',')[0].strip()
+        case['origin'] = draw(st.sampled_from(['%s://%s' % (case['scheme'], case['host']),
+                                               '%s://%s' % (proto, fhost)]))
+        case['near'] = 'own-origin-under-explicit-policy'
+        return case
     if choice == 'mixed':
         # the direct scheme with the forwarded host, or the forwarded scheme with the direct host:
         # neither the request's own origin nor the origin seen through the proxy
